@@ -11,6 +11,11 @@ header text (spaces, tabs, non-ASCII) fits on one space-separated line.
   word2 <str>                             -> none | some <str>
   auth <str>|absent                       -> accept | reject | error     (needs a token)
   req <idx> <method> <str>|absent <file>  -> view | <status>   (view = the view function was reached)
+  obs <presented> <expected> <0|1>        -> ok        (an observed verdict of the real comparison)
+  cmp <presented> <expected>              -> 0 | 1     (comparison of the run: equality patched by obs)
+  hval <tc|ws> <name> <value> ...         -> absent | some <str>   (header lines -> value the decorator sees)
+  reqh <idx> <method> <tc|ws> <file> <name> <value> ...   -> view | <status>
+The dispatch is `handleW (cmpOf obs)`; without `obs` lines that is `handle`.
 -/
 open Bptk.C15
 
@@ -30,6 +35,19 @@ def flag (s : String) : Option Bool :=
 structure St where
   table : Table := { routes := [], staticFiles := [] }
   tok : Option (List Char) := none
+  obs : Obs := []
+
+def decTransport (s : String) : Option Transport :=
+  if s == "tc" then some testClient else if s == "ws" then some wsgiServer else none
+
+def decPairs : List String → Option (List (List Char × List Char))
+  | [] => some []
+  | n :: v :: rest => do
+      let n ← decStr n
+      let v ← decStr v
+      let r ← decPairs rest
+      pure ((n, v) :: r)
+  | _ => none
 
 /-- the marker view: bumps the counter state, answers 200 -/
 def markView : View Nat Unit := fun _ _ s => (s + 1, 200)
@@ -61,10 +79,25 @@ def stepLine (st : St) (line : String) : St × String :=
       | _, _ => (st, "bad-op")
   | ["req", i, m, a, f] => match i.toNat?, decAuth a, decStr f with
       | some i, some a, some f =>
-        let (s', status) := handle markView st.table st.tok 0
+        let (s', status) := handleW (cmpOf st.obs) markView st.table st.tok 0
           { route := i, method := m, auth := a, file := String.ofList f, payload := () }
         (st, if s' != 0 then "view" else toString status)
       | _, _, _ => (st, "bad-op")
+  | ["obs", p, e, v] => match decStr p, decStr e, flag v with
+      | some p, some e, some v => ({ st with obs := st.obs ++ [(p, e, v)] }, "ok")
+      | _, _, _ => (st, "bad-op")
+  | ["cmp", p, e] => match decStr p, decStr e with
+      | some p, some e => (st, if cmpOf st.obs p e then "1" else "0")
+      | _, _ => (st, "bad-op")
+  | "hval" :: tr :: rest => match decTransport tr, decPairs rest with
+      | some tr, some raw => (st, match headerValue tr raw with | none => "absent" | some v => "some " ++ encStr v)
+      | _, _ => (st, "bad-op")
+  | "reqh" :: i :: m :: tr :: f :: rest => match i.toNat?, decTransport tr, decStr f, decPairs rest with
+      | some i, some tr, some f, some raw =>
+        let (s', status) := handleW (cmpOf st.obs) markView st.table st.tok 0
+          { route := i, method := m, auth := headerValue tr raw, file := String.ofList f, payload := () }
+        (st, if s' != 0 then "view" else toString status)
+      | _, _, _, _ => (st, "bad-op")
   | _ => (st, "bad-op")
 
 partial def loop (h : IO.FS.Stream) (st : St) : IO Unit := do
